@@ -555,7 +555,7 @@ def full_api_histories(rep, seed, n=60):
         def f(x):
             y = x * 0.25 + 0.5
             for u in ops:
-                if u in (algopy.log, algopy.sqrt, algopy.reciprocal):
+                if u in (algopy.log, algopy.sqrt, algopy.reciprocal, algopy.log1p):       # (stay inside the domain)
                     y = y * y + 0.5
                 y = u(y)
             if kind == "elem":
@@ -878,11 +878,11 @@ def full_api_adjoint(rep, seed, n=80):
         if name == "eig_values":
             D = min(D, 2)          # documented: the general eigendecomposition supports first-order polynomials only
             x = x[:D]
-        if name == "botched_clip":
-            # piecewise linear with kinks at 0.5 and 1.0: keep the base points away from them (the reference J v is a stencil in h)
-            for kink in (0.5, 1.0):
-                near = abs(x[0] - kink) < 0.03
-                x[0][near] = kink + 0.07
+        kinks = {"botched_clip": (0.5, 1.0), "reciprocal_square": (0.75,), "negative_sign": (0.75,)}.get(name, ())
+        for kink in kinks:
+            # piecewise smooth with kinks / jumps there: keep the base points away from them (the reference J v is a stencil in h)
+            near = abs(x[0] - kink) < 0.03
+            x[0][near] = kink + 0.07
         if name.endswith("mixed_pivots"):
             # directions whose zeroth coefficients need different row pivoting
             P = 2
